@@ -546,6 +546,34 @@ fn probes(ctx: &Ctx) {
             ctx.violation(sig, format!("macro form yields {:?}, plain form {:?}", a.brief(), b.brief()), json!({"source": with, "hand_expanded": plain, "observed": a.brief()}));
         }
     }
+    // "calling an undefined macro or omitting an argument the body uses is an error" - wherever the use
+    // sits: forwarded to another macro, in a directive of the data segment, in a definition nobody reads,
+    // in the selected branch of a conditional, in an origin
+    let must_fail: Vec<(&str, &str)> = vec![
+        ("omitted/forwarded-to-inner-macro", ".macro inner\n\tldi r16, @1\n.endm\n.macro outer\n\tinner @1, 7\n.endm\n\touter 5\n"),
+        ("omitted/forwarded-second-of-three", ".macro inner\n\t.dw @0, @1, @2\n.endm\n.macro outer\n\tinner @0, @2, 9\n.endm\n\touter 1, 2\n"),
+        ("omitted/reservation-in-dseg", ".macro var\n@0:\t.byte @1\n.endm\n.dseg\n\tvar buffer\n.cseg\n\tnop\n"),
+        ("omitted/reservation-in-eseg", ".macro evar\n\t.byte @1\n.endm\n.eseg\n\tevar 1\n.cseg\n\tnop\n"),
+        ("omitted/in-unused-equ", ".macro konst\n.equ never_read_again = @1\n.endm\n\tkonst 1\n\tnop\n"),
+        ("omitted/in-unused-set", ".macro kset\n.set never_read_again = @2\n.endm\n\tkset 1, 2\n\tnop\n"),
+        ("omitted/in-selected-branch", ".macro sel\n.if 1\n\t.dw @3\n.else\n\t.dw @0\n.endif\n.endm\n\tsel 1\n"),
+        ("omitted/in-origin", ".macro at\n\t.org @1\n\tnop\n.endm\n\tat 0x10\n"),
+        ("omitted/in-condition", ".macro cond\n.if @1\n\tnop\n.endif\n.endm\n\tcond 1\n"),
+        ("omitted/in-message", ".macro say\n\tldi r16, @0\n\tldi r17, @1\n.endm\n\tsay 1\n"),
+        ("omitted/register-operand", ".macro mv\n\tmov @0, @1\n.endm\n\tmv r1\n"),
+        ("omitted/all-arguments", ".macro two\n\tldi @0, @1\n.endm\n\ttwo\n"),
+        ("undefined/called-from-a-body", ".macro outer\n\tnop\n\tnever_defined_macro 1\n.endm\n\touter\n"),
+        ("undefined/called-in-dseg", ".dseg\n\tnever_defined_macro 2\n.cseg\n\tnop\n"),
+        ("undefined/called-in-eseg", ".eseg\n\tnever_defined_macro\n.cseg\n\tnop\n"),
+    ];
+    for (sig, src) in must_fail {
+        let out = fw::build_str(src);
+        ctx.eval(1);
+        ctx.distinct(fw::hash_str(sig));
+        if !out.is_err() {
+            ctx.violation(format!("macro/must-fail/{}", sig), format!("builds although it must be an error: {:?}", out.brief()), json!({"source": src, "observed": out.brief()}));
+        }
+    }
 }
 
 /// Bodies that place things: `.org` as the first, a middle or the last line of a body (origin and
